@@ -1290,10 +1290,11 @@ class RawAlgorithmsMixIn:
                         zb = zbar_data[c,p]
                         # y with its contraction axis moved to the end: (b..., m, K)
                         ym = numpy.moveaxis(y_data[d-c,p], ky, -1)
-                        xbar_data[d,p] += numpy.tensordot(zb, ym, axes=(list(range(na, zb.ndim)), list(range(ry-1))))
+                        # (casting='unsafe': the adjoint of a real operand next to a complex one keeps its real part, as in _dot)
+                        numpy.add(xbar_data[d,p], numpy.tensordot(zb, ym, axes=(list(range(na, zb.ndim)), list(range(ry-1)))), out=xbar_data[d,p], casting='unsafe')
                         # contract the leading axes a... of x with those of zbar: (K, b..., m)
                         tmp = numpy.tensordot(x_data[c,p], zbar_data[d-c,p], axes=(list(range(na)), list(range(na))))
-                        ybar_data[d,p] += numpy.moveaxis(tmp, 0, ky)
+                        numpy.add(ybar_data[d,p], numpy.moveaxis(tmp, 0, ky), out=ybar_data[d,p], casting='unsafe')
             return out
 
         if x_data.ndim == 3 or y_data.ndim == 3:
